@@ -22,6 +22,11 @@ add("C02", "exploration",
     "trusted: keccak256 (x/crypto), the harness's own RLP/hex-prefix reference (model/mpt.go), simdisk.KV; the trie, hasher, node database and iterator are the real code",
     "deterministic simulation: seeded histories + disk read faults vs reference MPT model")
 
+add("C03", "fault_enumeration",
+    "for seeded histories of blocks (half of them >100 KiB so the commit spans several batch writes) committed as blockChain.saveStates does, EVERY prefix of every commit's physical write sequence is materialised as a crash image and opened cold: all earlier roots and - when its top node is present, and always after an acknowledged commit - the new root must resolve completely (account trie, storage tries, code) and read back the recorded values; plus a failing-write variant. Exhaustive over write prefixes per history; histories are sampled.",
+    "crash model = process death (completed writes survive, a batch is atomic, nothing torn): the code never syncs and the property speaks of process death; trusted: simdisk.KV",
+    "deterministic simulation: crash-point enumeration over the physical write log + cold reopen + complete walk")
+
 add("C04", "exploration",
     "seeded search over histories of every AccountDB mutator, nested Snapshot/RevertToSnapshot, cache-warming reads, Prepare, Commit + warm/cold reopen on the simulated disk; oracles: the statement's query vector recorded at each snapshot must be answered identically right after the revert, and a twin run without the reverted segments must give the same intermediate and committed root (difference classified leaf by leaf). Sampling, not proof.",
     "trusted: simdisk.KV, the closed observation universe; AccountDB/journal/tries are the real code; base states start with the native-token contract binding every genesis creates",
